@@ -2,7 +2,7 @@ check("C03", "fault_enumeration",
       "Differential simulation: every generated legal server stream is replayed under chunk partitions (all 2^n for "
       "catalogue streams up to 12/16 bytes, seeded for streams up to ~400 bytes), per-recv read caps and k receive "
       "timeouts at chosen byte positions (all single positions x multiplicity 1..3 and all pairs for the catalogue); "
-      "observations and client replies must equal the one-chunk run and the object must stay usable after every timeout.",
+      "observations and client replies must equal the one-chunk run and the object must stay usable after every timeout; a polling client on a zero-timeout socket (would-block in place of the timeout) is part of the sampled space.",
       TRUST, "deterministic simulation, exhaustive + seeded fault enumeration over link plans, differential oracle",
       "DESIGN.md section 6 C03")
 check("C01", "exploration",
@@ -40,8 +40,8 @@ check("C06", "exploration",
 check("C07", "exploration",
       "Event-order oracle on the simulator's global log: after the recv that delivered the last byte of each ping the "
       "client's next transport operations must be sends forming exactly one pong with that payload, before any further "
-      "recv; seeded streams with pings before/between/inside fragmented messages, short writes during the pong; all "
-      "payload lengths 0..125 enumerated at three positions.", TRUST,
+      "recv; seeded streams with pings before/between/inside fragmented messages, short writes and a one-off would-block during the pong, "
+      "an application thread sending concurrently under seeded schedules; all payload lengths 0..125 enumerated at three positions.", TRUST,
       "deterministic simulation: seeded histories with short-write injection, global event-order oracle",
       "DESIGN.md section 6 C07")
 check("C09", "fault_enumeration",
@@ -61,7 +61,8 @@ check("C10", "exploration",
 check("C11", "exploration",
       "Full configuration grid of the documented sslopt keys and the CA-bundle variable against simulated TLS peers "
       "(real OpenSSL on both ends over the simulated wire), directly and through a simulated CONNECT proxy; independent "
-      "predicate decides accept/reject; on reject the peer must have decrypted zero application bytes.",
+      "predicate decides accept/reject; on reject the peer must have decrypted zero application bytes. Scenarios hold 1..3 "
+      "successive connections in one process (options of one connection must not leak into the next); ssl_version is part of the grid.",
       TRUST + " OpenSSL 3.0 does the verification; SSLObject<->socket glue (sim/tls.py) is ours; do_handshake_on_connect/suppress_ragged_eofs pass-through not exercised.",
       "deterministic simulation: exhaustive configuration grid against simulated TLS peers (real OpenSSL over simulated wire)",
       "DESIGN.md section 6 C11")
@@ -91,7 +92,8 @@ check("C12", "exploration",
       "probabilistic line pre-emption, PCT depth 1..3) plus a depth-1 sweep forcing one pre-emption at every traced "
       "line of a reference run. Oracles: wire decodes into exactly the frames sent, per-thread order kept; every message "
       "delivered intact to exactly one receiver; pongs = pings; all receivers end with the connection-closed exception. "
-      "Schedules are sampled, not enumerated up to a pre-emption bound.",
+      "Further faults: the transport stalling mid-frame (would-block, unwritable for a while), fragments trickling in under a finite "
+      "socket timeout. Schedules are sampled, not enumerated up to a pre-emption bound.",
       TRUST + " Pre-emption granularity is the source line inside websocket/*.py.",
       "deterministic simulation: seeded scheduler over baton-passed threads (coop/prob/PCT + depth-1 at(k) sweep), exhaustive short-write fault patterns",
       "DESIGN.md section 6 C12")
@@ -101,7 +103,8 @@ check("C08", "exploration",
       "including chatty and byte-trickling peers); a full grid close(status, timeout) x reaction x status is enumerated. "
       "Checks: <=1 own close frame, payload = !H status||reason, out-of-range statuses refused with nothing written, "
       "transport released and later calls raise connection-closed without touching a socket, close() returns within "
-      "its timeout.", TRUST, "deterministic simulation: seeded call/event histories in virtual time with silent/slow/chatty/trickling peer faults, reference state machine oracle",
+      "its timeout. Faults: silent / slow / chatty / trickling peer, end of stream, reset, blocking socket without timeout, "
+      "the transport failing after N written bytes (EPIPE, ECONNRESET, transient write timeout).", TRUST, "deterministic simulation: seeded call/event histories in virtual time with silent/slow/chatty/trickling peer faults, reference state machine oracle",
       "DESIGN.md section 6 C08")
 check("C13", "exploration",
       "WebSocketApp.run_forever on the simulated main thread against scripted peers (plain and real TLS over the simulated "
@@ -115,7 +118,8 @@ check("C14", "exploration",
       "close() from a second thread pre-empting the loop thread at every traced line (every 3rd in quick) of four reference "
       "runs. Per-run oracle: bounded termination in virtual time, on_close exactly once and last with the server's close "
       "code/reason or (None, None), return value consistent with on_error and the ending mode, all sockets closed and no "
-      "library thread alive, second run judged on its own. Four known findings (asynchronous close races) are listed in "
+      "library thread alive, second run judged on its own; plain and TLS transports; endings that must stop the run also with a "
+      "reconnect interval set. Four known findings (asynchronous close races) are listed in "
       "known_findings.json and printed as KNOWN-FINDING.", TRUST,
       "deterministic simulation: seeded scheduler + depth-1 pre-emption sweep (close() at every line), fault endings in virtual time, per-run invariant oracle",
       "DESIGN.md section 6 C14")
@@ -124,7 +128,8 @@ check("C16", "exploration",
       "patterns (responsive: always < 0.9 t; silent: stops after the k-th ping) and concurrent data traffic timed to collide "
       "with ping and timeout instants, in virtual time under seeded schedules of the ping thread vs the loop. Oracle from "
       "the peer's log and the callback trace: payload, cadence, first ping <= 2 i, no ping after the end, detection <= "
-      "P + 2 t for silent peers, never for responsive ones, refusal before any network activity. One known finding "
+      "P + 2 t for silent peers, never for responsive ones, refusal before any network activity; a slow-thread fault holds threads up "
+      "between two lines; the judged connection may be a re-established one or belong to a second run. One known finding "
       "(interval <= 2*timeout) is listed.", TRUST + " Every timed wait overshoots its deadline by one tick (scheduling latency model).",
       "deterministic simulation: virtual-time grid with silent/slow peer faults and colliding traffic under a seeded two-thread scheduler, bound oracle",
       "DESIGN.md section 6 C16")
